@@ -26,30 +26,47 @@ pub fn library() -> Vec<PkgSpec> {
             &[("p", f0.clone()), ("m", Ty::inst(&[("x", f0.clone())]))],
             &[("a", f0.clone()), ("n", Ty::inst(&[("x", f0.clone()), ("y", f0.clone()), ("deep", Ty::inst(&[("x", f0.clone())]))]))],
         ),
+        // exports TYPES (a resource, a record and a function over the resource): every
+        // instantiation has its own `r`, so an alias of `r` must name its own instance
+        PkgSpec::from_component("t:ty", None, mc_core::libs::wat(TY_EXPORTER).expect("t:ty")),
     ]
 }
+
+pub const TY_EXPORTER: &str = r#"(component
+      (type $r' (resource (rep i32)))
+      (export $r "r" (type $r'))
+      (type $rec' (record (field "a" u32)))
+      (export $rec "rec" (type $rec'))
+      (core module $m (func (export "mk") (result i32) i32.const 0))
+      (core instance $i (instantiate $m))
+      (func $mk (result (own $r)) (canon lift (core func $i "mk")))
+      (export "mk" (func $mk))
+    )"#;
+
 
 pub fn universe(prop: &'static str, tier: Tier) -> Universe {
     let mut u = Universe::build(prop, library());
     u.add_import_kind_from_import(2, "p");
     u.add_import_kind_from_import(3, "m");
     let s = |v: &[&str]| v.iter().map(|x| x.to_string()).collect::<Vec<_>>();
-    u.alias_names = s(&["a", "b", "n", "x", "y", "r", "deep"]);
+    // (`mk`, a function over the resource, is not aliased here: exporting it without `r` is the
+    // C01 finding export-of-a-function-over-a-resource-that-is-not-exported)
+    u.alias_names = s(&["a", "b", "n", "x", "y", "r", "deep", "rec"]);
     u.import_names = s(&["p", "k"]);
     u.export_names = s(&["e1", "e2"]);
     u.arg_names = s(&["p", "q", "m"]);
     u.node_names = s(&["n1", "n2"]);
     u.define_names = vec![];
-    u.names = classify_names(&["a", "b", "n", "x", "y", "r", "deep", "p", "q", "m", "k", "e1", "e2"]);
+    u.names = classify_names(&["a", "b", "n", "x", "y", "r", "deep", "rec", "mk", "p", "q", "m", "k", "e1", "e2"]);
     u.max_nodes = 7;
-    u.max_pkgs = 4;
+    u.max_pkgs = 5;
     u.ops = ["Instantiate", "Alias", "Import", "SetArg", "Export", "SetName"].into_iter().collect();
     u
 }
 
 pub fn seeds() -> Vec<Vec<Op>> {
     let s = |x: &str| x.to_string();
-    let reg = vec![Op::Register(0), Op::Register(1), Op::Register(2), Op::Register(3)];
+    let reg = vec![Op::Register(0), Op::Register(1), Op::Register(2), Op::Register(3), Op::Register(4)];
     let with = |ops: Vec<Op>| -> Vec<Op> { reg.iter().cloned().chain(ops).collect() };
     vec![
         with(vec![]),
@@ -63,6 +80,8 @@ pub fn seeds() -> Vec<Vec<Op>> {
         with(vec![Op::Instantiate(0), Op::Alias(0, s("a")), Op::Instantiate(2), Op::Instantiate(2), Op::SetArg(2, s("p"), 1)]),
         // alias of alias of nested instance export; instance argument
         with(vec![Op::Instantiate(3), Op::Alias(0, s("n")), Op::Alias(1, s("deep")), Op::Alias(2, s("x")), Op::Instantiate(3)]),
+        // the same TYPE export aliased from two instantiations of one package
+        with(vec![Op::Instantiate(4), Op::Instantiate(4), Op::Alias(0, s("r")), Op::Alias(1, s("r")), Op::Alias(1, s("rec")), Op::Alias(0, s("rec"))]),
         // node exported under two names, named nodes, explicit import as an argument
         with(vec![
             Op::Instantiate(0),
@@ -89,7 +108,7 @@ pub fn run(args: &[String]) {
     }
     let tier = ctx.tier();
     let u = universe("C02", tier);
-    let depth = tier.pick(4, 5);
+    let depth = tier.pick(3, 4);
     let (stats, found) = bfs(&u, &seeds(), depth, Some(&wiring_and_interface_check), tier.pick(2_000_000, 30_000_000), None);
     for f in found {
         let mut case = f.case;
